@@ -159,6 +159,53 @@ def pars(inp):
         return {"got": b.error_band(xs), "expected": a.error_band(xs), "witness_class": "parameters:band"}
 
 
+def gen_multi_order(tier, seed):
+    for backend in ("iminuit", "scipy"):
+        for shared in ("a", "a+c"):
+            yield {"backend": backend, "shared": shared}
+
+
+@R.oracle("member_parameter_order_in_a_multi_fit", gen_multi_order, obligation="end-to-end:parameters")
+def multi_order(inp):
+    """a member of a multi-fit lists its parameters in its own order: values, uncertainties, covariance entries and the error band of the member belong to the
+    parameter NAMES, whichever order the member's model function declares them in"""
+    MultiFit = imp("kafe2").MultiFit
+
+    def f0(x, a=1.0, b=0.5):
+        return a * x + b
+
+    def f1_ca(x, c=0.3, a=1.0):
+        return a * x + c * x * x
+
+    def f1_ac(x, a=1.0, c=0.3):
+        return a * x + c * x * x
+    x0, y0 = np.array([0.0, 1.0, 2.0, 3.0, 4.0]), np.array([0.6, 1.4, 2.7, 3.4, 4.6])
+    x1, y1 = np.array([0.5, 1.5, 2.5, 3.5]), np.array([0.7, 2.3, 4.6, 7.1])
+    out = []
+    for f1 in (f1_ca, f1_ac):
+        m0 = XYFit([x0, y0], f0, minimizer=inp["backend"]); m0.add_error("y", 0.2)
+        m1 = XYFit([x1, y1], f1, minimizer=inp["backend"]); m1.add_error("y", np.array([0.1, 0.2, 0.3, 0.4]))
+        mf = MultiFit([m0, m1], minimizer=inp["backend"])
+        if inp["shared"] == "a+c":
+            mf.add_parameter_constraint("c", 0.3, 0.2)
+        mf.do_fit()
+        names = list(m1.parameter_names)
+        multi = dict(zip(mf.parameter_names, mf.parameter_errors))
+        out.append({"names": names, "v": dict(zip(names, m1.parameter_values)), "e": dict(zip(names, m1.parameter_errors)),
+                    "C": {(p_, q_): m1.parameter_cov_mat[i][j] for i, p_ in enumerate(names) for j, q_ in enumerate(names)}, "band": np.asarray(m1.error_band(np.array([0.0, 1.0, 2.0, 4.0]))), "multi_e": multi})
+    s, t = out
+    for n_ in ("a", "c"):
+        if not np.isclose(s["e"][n_], s["multi_e"][n_], rtol=1e-6):
+            return {"got": s["e"], "expected": {k_: s["multi_e"][k_] for k_ in ("a", "c")}, "witness_class": "multi-order:member-uncertainty-is-not-the-multi-fit's-for-that-name"}
+        if not np.isclose(s["v"][n_], t["v"][n_], rtol=2e-3, atol=1e-6) or not np.isclose(s["e"][n_], t["e"][n_], rtol=2e-2):
+            return {"got": {"v": t["v"], "e": t["e"]}, "expected": {"v": s["v"], "e": s["e"]}, "witness_class": "multi-order:values-or-uncertainties-depend-on-the-declared-order"}
+    for k_ in s["C"]:
+        if not np.isclose(s["C"][k_], t["C"][k_], rtol=3e-2, atol=1e-8):
+            return {"got": t["C"][k_], "expected": s["C"][k_], "witness_class": "multi-order:covariance"}
+    if not np.allclose(s["band"], t["band"], rtol=2e-2, atol=1e-8):
+        return {"got": t["band"], "expected": s["band"], "witness_class": "multi-order:band"}
+
+
 # ------------------------------------------------------------------ 3. unit of y
 def power(x, A0=0.5, p=2.0, off=1.0):        # A0 and off carry the unit of y, the exponent is unit-free
     return A0 * x ** p + off
